@@ -738,7 +738,7 @@ class SimplicialComplex:
 
         :param c: the other complex
         :returns: True if c is a sub-complex of this'''
-        return c <= self
+        return c.isSubComplexOf(self)
 
     def __gt__(self, c: 'SimplicialComplex') -> bool:
         '''True if c is a structly smaller sub-complex of this one.
@@ -746,7 +746,7 @@ class SimplicialComplex:
 
         :param c: the other complex
         :returns: True if c is a sub-complex of this and has fewer simplices'''
-        return c < self
+        return c.isSubComplexOf(self) and len(c) < len(self)
 
     def __eq__(self, c: 'SimplicialComplex') -> bool:
         '''True if the two complexes have the same simplices with the same
